@@ -517,6 +517,19 @@ class Facts:
                             via.add(st[2]["a"]["p"][0])
                     if dst[0] in via and not dst[1]:
                         errs = d.setdefault("inlined_error_blocks", [])
+                        # where the caller's `?` goes on an error: the Break target of the switch behind `branch(..)`
+                        brk = None
+                        swb = blocks[ct["target"]] if isinstance(ct.get("target"), int) and ct["target"] < len(blocks) else None
+                        if swb and swb["t"]["k"] == "switch":
+                            vmap = {}
+                            for st in swb["s"]:
+                                if st[0] == "=" and st[2].get("k") == "discr":
+                                    vmap = {v_: n_ for n_, v_ in st[2].get("variants", [])}
+                            bi = vmap.get("Break")
+                            tg = [x for v_, x in swb["t"]["targets"] if v_ == bi]
+                            named = {v_ for v_, _x in swb["t"]["targets"]}
+                            if bi is not None:
+                                brk = tg[0] if tg else (swb["t"]["otherwise"] if bi not in named else None)
                         if not (comb and comb[3]):
                             for gi, gb in enumerate(g.blocks):
                                 is_err = any(st[0] == "=" and st[1][0] == 0 and not st[1][1] and st[2].get("k") == "agg"
@@ -526,8 +539,58 @@ class Facts:
                                     is_err = True
                                 if is_err:
                                     errs.append(nb0 + gi)
+                                    # an error exit of the helper can only continue on the error side of the caller's `?`:
+                                    # jump there directly, so that no infeasible "helper failed, caller goes on" path exists
+                                    if brk is not None:
+                                        nt_ = newb[gi]["t"]
+                                        if nt_["k"] == "goto":
+                                            nt_["target"] = brk
+                                        elif nt_["k"] == "call" and nt_.get("target") is not None:
+                                            nt_["target"] = brk
                         if comb and comb[2] in ("Some", "Ok"):
                             errs.append(nb0 + len(newb) - 1)
+                            if brk is not None and newb[-1]["t"]["k"] == "goto":
+                                newb[-1]["t"]["target"] = brk
+                        # with the helper's error exits gone to the error side, what still reaches the `?` is a success value: if
+                        # every other result the helper sets is an explicit Ok/Some, the `?` cannot fail there any more
+                        if brk is not None and not comb:
+                            sets = []
+                            for gi, gb in enumerate(g.blocks):
+                                for st in gb["s"]:
+                                    if st[0] == "=" and st[1][0] == 0 and not st[1][1]:
+                                        sets.append((nb0 + gi, st[2]))
+                                gt = gb["t"]
+                                if gt["k"] == "call" and gt.get("dest") and gt["dest"][0] == 0 and not gt["dest"][1]:
+                                    sets.append((nb0 + gi, {"k": "call", "name": gt["f"].get("name")}))
+                            ok_only = bool(sets) and all((bi_ in errs) or (rv_.get("k") == "agg" and rv_.get("variant") in ("Ok", "Some", "Continue"))
+                                                         for bi_, rv_ in sets)
+                            tgt_c = t["target"]
+
+                            def _succs(bt):
+                                out_ = []
+                                for k_ in ("target", "otherwise"):
+                                    if isinstance(bt.get(k_), int):
+                                        out_.append(bt[k_])
+                                out_ += [x for _v, x in bt.get("targets", [])]
+                                return out_
+                            other_preds = [i_ for i_, bb in enumerate(blocks) if i_ != b and tgt_c in _succs(bb["t"])]
+                            sw_preds = [i_ for i_, bb in enumerate(blocks) if i_ != tgt_c and ct.get("target") in _succs(bb["t"])]
+                            if ok_only and not other_preds and not sw_preds:
+                                cont_i = vmap.get("Continue")
+                                ctg = [x for v_, x in swb["t"]["targets"] if v_ == cont_i]
+                                ctarget = ctg[0] if ctg else swb["t"]["otherwise"]
+                                swb["t"] = {"k": "goto", "target": ctarget}
+                # the helper's result *is* the caller's result (`fn f(..) -> R { helper(..) }`): its error exits are the caller's
+                if not comb and t["dest"][0] == 0 and not t["dest"][1]:
+                    errs = d.setdefault("inlined_error_blocks", [])
+                    for gi, gb in enumerate(g.blocks):
+                        is_err = any(st[0] == "=" and st[1][0] == 0 and not st[1][1] and st[2].get("k") == "agg"
+                                     and st[2].get("variant") in ("Err", "None") for st in gb["s"])
+                        gt = gb["t"]
+                        if gt["k"] == "call" and gt["f"].get("name") == "from_residual" and gt["dest"][0] == 0:
+                            is_err = True
+                        if is_err and nb0 + gi not in errs:
+                            errs.append(nb0 + gi)
                 blocks.extend(newb)
                 d.setdefault("inlined_helpers", []).append(g.path)
                 did = changed = True
@@ -1014,6 +1077,28 @@ def const_term(op):
     if op.get("zst"):
         return ("zst", op.get("ty"))
     return ("constunk", op.get("ty"))
+
+
+def linearise(f, path):
+    """a straight-line copy of f along `path` (terminators become gotos): every local has at most one definition on it, so
+    Terms over the copy evaluates values *on that path* (no phi of alternatives the path did not take)"""
+    import copy
+    blocks = []
+    for i, b in enumerate(path):
+        blk = copy.deepcopy(f.blocks[b])
+        t = blk["t"]
+        nxt = i + 1 if i + 1 < len(path) else None
+        if t["k"] == "call":
+            t["target"] = nxt
+            t["unwind"] = None
+        elif nxt is not None:
+            blk["t"] = {"k": "goto", "target": nxt}
+        else:
+            blk["t"] = {"k": "return"}
+        blocks.append(blk)
+    d = dict(f.d)
+    d["blocks"] = blocks
+    return Fn(d, f.crate)
 
 
 def project(base, proj):
